@@ -16,6 +16,7 @@ fn main() {
         "prog-record" => xv::prog::cmd_record(rest),
         "rev-record" => xv::rev::cmd_record(rest),
         "drive-record" => xv::drive::cmd_record(rest),
+        "drive-one" => xv::drive::cmd_one(rest),
         "limits-replay" => xv::limits::cmd_replay(rest),
         "limits-record" => xv::limits::cmd_record(rest),
         "twin-replay" => xv::twin::cmd_replay(rest),
